@@ -13,8 +13,8 @@ NA = {
 }
 
 CHECKS = {
-    "C01": ("exploration", "Seeded search over generated driver definitions (inheritance depth <= 3, all five vector kinds, three switch rules, printf and sexagesimal formats, enabled flags on groups/vectors/elements, 1-3 devices) x operation histories (driver-side assign/set_value/bool_value/state/enabled/selected_value, client-side handshake and assign+submit, late client start, in-process snooping) x network schedules (8 fragmentation modes, 6 latency profiles incl. per-connection skew, 4 high-water marks, timer tie shuffling) on the real full stack; at every settle point every client's mirror and a reference mirror fed with the same messages are compared with the driver's state read through its public attributes.",
-            "Fault-free network; serialised messages stay below the 2048-character control threshold; number texts are compared with the library's own rendering; two known findings (K01, K02: state of BLOB vectors across the two connections) are suppressed by narrow signatures.",
+    "C01": ("exploration", "Seeded search over generated driver definitions (inheritance depth <= 3, all five vector kinds, three switch rules, printf and sexagesimal formats, enabled flags on groups/vectors/elements, 1-3 devices) (optionally two instances of one driver class) x operation histories (driver-side assign/set_value/bool_value/state/enabled/selected_value, flags flipped while the group is hidden, client-side handshake and assign+submit incl. multi-element writes with one unusable element, late client start, in-process snooping, temporary stalls, gaps in virtual time or exact loop iterations) x network schedules (8 fragmentation modes, 6 latency profiles incl. per-connection skew, 4 high-water marks, timer tie shuffling) on the real full stack; at every settle point every client's mirror and a reference mirror fed with the same messages are compared with the driver's state read through its public attributes, including presence and bit-exactness of BLOB payloads.",
+            "Fault-free network; serialised messages stay below the 2048-character control threshold; number texts are compared with the library's own rendering; five known findings (K01, K02, K04-K06: state and payload of BLOB vectors across the two connections / the enableBLOB race / re-definition by getProperties) are suppressed by narrow signatures.",
             "deterministic simulation of the full client/server stack with seeded network schedules; truth-vs-mirror comparison at quiescence"),
     "C06": ("exploration", "Seeded search over multi-device deployments x write episodes (settle, snapshot of every element of every device, one client assigns a non-empty element subset of one writable property through the client API and submits, settle, snapshot) x values of each element's domain (text over XML-representable characters, both switch states, byte strings incl. empty, plain and sexagesimal numbers incl. negative) x 7 fragmentation modes x 5 latency profiles; unaddressed elements must be unchanged except rule-forced switch flips predicted by an independent rule model, addressed ones must hold the submitted value (numbers within half the format's resolution under INDI conventions), and the client's own view must show the driver's values afterwards.",
             "Only rw/wo properties, numbers in the format's own shape, BLOB payloads small enough for the server-side 2048-character threshold (big uploads are C08).",
@@ -25,16 +25,16 @@ CHECKS = {
     "C09": ("exploration", "Seeded search over switch vectors (3 rules x 1..5 switches x arbitrary, possibly rule-violating, initial configuration) operated by several actors: real clients writing one switch over the simulated wire, a raw peer writing several switches per message (duplicates, contradictory pairs), driver-side value=, bool_value=, set_value(), selected_value=, selected_values=; pre->post rule implications on driver state for every driver-side operation, agreement with an independent rule model for single assignments, the rule on every published setSwitchVector (router tap) relative to the state before the operation, the rule on every client view after every delivered message, and final agreement of every client view with the driver. Distinct (rule, n, pre-state, operation, target) transitions are counted.",
             "Pre->post implications only; the first of two Ons in one multi-switch OneOfMany write need not stay On; operations interleave at message granularity.",
             "deterministic simulation with several concurrent writers; rule invariant on driver state, router tap and client views"),
-    "C12": ("fault_enumeration", "A catalogue of 18 hostile-but-well-formed client message classes (unknown device/property/element, vector kind mismatch, values the parser accepts but the element cannot convert, values the parser rejects, wrong/non-numeric/missing BLOB size, bad base64, no children, duplicate children, mixed valid+invalid children, device-kind messages from a client, enableBLOB for unknown device or from an unregistered sender, unregistered tags, odd getProperties) is enumerated round-robin x 5 target vector kinds x transport {real TCP handler, real TTY handler on the simulated thread pool, direct router call} and injected at a seeded position of a seeded session of valid traffic; afterwards: nothing escaped, only validly named elements changed (to the valid value), the sending connection is still registered/open and answers a valid getProperties, a valid write is applied, and a driver-side update reaches both the sender and an observing client.",
+    "C12": ("fault_enumeration", "A catalogue of 21 hostile-but-well-formed client message classes (unknown device/property/element, vector kind mismatch, values the parser accepts but the element cannot convert, values the parser rejects, empty values, wrong / non-numeric / numeric-looking (inf, 1e999, 3.5) / missing BLOB size, empty BLOB with a wrong size, bad base64, integers too large to render, no children, duplicate children, mixed valid+invalid children, device-kind messages from a client, enableBLOB for unknown device or from an unregistered sender, unregistered tags, odd getProperties) is enumerated round-robin x 5 target vector kinds x transport {real TCP handler, real TTY handler on the simulated thread pool, direct router call} and injected at a seeded position of a seeded session of valid traffic; afterwards: nothing escaped, only validly named elements changed (to the valid value), the sending connection is still registered/open and answers a valid getProperties, a valid write is applied, and a driver-side update reaches both the sender and an observing client, whose view must still match the device.",
             "One hostile message per run in the quick tier (sequences in thorough); both readings of 'ignored as far as it cannot be applied' pass.",
             "deterministic simulation with message-level fault injection enumerated from a catalogue at every session position"),
-    "C18": ("fault_enumeration", "Seven fault kinds {EOF, reset, EOF inside a message, junk then EOF, exception in a driver Write handler while the victim's message is handled, silent peer death noticed on the next write, TTY stdin EOF} are enumerated round-robin and injected at every step index of seeded session scripts (2-4 raw TCP connections, optionally a library client and the TTY channel; handshakes, enableBLOB, writes, device text/BLOB updates) on the real TCP and TTY handlers; afterwards: the dead handler is in none of Router.clients, Router.blob_routing, ConnectionHandler.connections and its transport is closed, the router hands it nothing after unregistering it, every surviving connection received every device update exactly once (by unique emission stamp, respecting the BLOB policy in force at emission), the TCP server and (for TCP-side faults) the TTY handler still run, and a reconnecting peer gets default routing (no BLOB until it asks, then one).",
+    "C18": ("fault_enumeration", "Eight fault kinds {EOF, reset, EOF inside a message, junk then EOF, exception in a driver Write handler while the victim's message is handled, silent peer death noticed on the next write, TTY stdin EOF, handler exception on the TTY channel} are enumerated round-robin and injected at every step index (script gaps in virtual time or in exact numbers of loop iterations) of seeded session scripts (2-4 raw TCP connections, optionally a library client and the TTY channel; handshakes, enableBLOB, writes, device text/BLOB updates) on the real TCP and TTY handlers; afterwards: the dead handler is in none of Router.clients, Router.blob_routing, ConnectionHandler.connections and its transport is closed, the router hands it nothing after unregistering it, every surviving connection received every device update exactly once (by unique emission stamp, respecting the BLOB policy in force at emission), the TCP server and (for TCP-side faults) the TTY handler still run, and a reconnecting peer gets default routing (no BLOB until it asks, then one).",
             "Messages in flight to/from the dying connection may be lost; a silent death is only required to be cleaned up at quiescence after the next device message.",
             "deterministic simulation with connection-level fault injection enumerated over fault kind x step index"),
-    "C19": ("exploration", "Seeded search over bursts of 1..5 updates routed in one loop iteration or across iterations to 1-3 real TCP handlers (transport high-water mark 0/1/64/64Ki so that drain() blocks and its completion order is seeded), to the real TTY handler on a simulated pool of 2..6 workers whose job effect and completion instants are seeded, and from the real client-side connection handler to a stub server; optionally one connection stalled for ever. Each connection's output must split into complete elements that equal the routed sequence (a prefix for the stalled one); routing a burst must not advance virtual time; all other connections must be complete at quiescence.",
+    "C19": ("exploration", "Seeded search over bursts of 1..5 updates routed in one loop iteration or across iterations to 1-3 real TCP handlers (transport high-water mark 0/1/64/64Ki so that drain() blocks and its completion order is seeded), to the real TTY handler on a simulated pool of 2..6 workers whose job effect and completion instants are seeded, and from the real client-side connection handler to a stub server; optionally one connection stalled for ever; the instant of a burst is either a virtual-time gap or an exact number of loop iterations after the previous one (so it can fall between a drain completing, the lock being released and the next sender resuming). Each connection's output must split into complete elements that equal the routed sequence (a prefix for the stalled one); routing a burst must not advance virtual time; all other connections must be complete at quiescence.",
             "asyncio's FIFO ready queue is kept; pool jobs on different workers are free to take effect in either order (superset of a real pool).",
             "deterministic simulation of drain/pool completion orders with per-connection output vs routed order"),
-    "C08": ("exploration", "Payload lengths are enumerated from the run index (0..96, windows around every length whose message crosses a multiple of 1024 bytes and the 2048-character threshold, 3000/4Ki/10K/64Ki; thorough: every length 0..3200, 64Ki, 1Mi) x content {random over all byte values, zeros, 0xFF} x formats (incl. empty and non-ASCII) x receivers {library client with Only on its BLOB connection, the same additionally Also on control, raw peers with policy unset/Never/Also/Only} x direction {download, upload through the client API, raw upload} x partial-BLOB faults (BLOB connection reset inside a payload; half an upload left pending, then closed) x read fragmentation {fixed:1024, fixed:1, fixed:7, random, whole, coalesce}; byte/format/size-exact comparison at every enabled receiver, no setBLOBVector at non-enabled ones, follow-up control and BLOB traffic must arrive on every live connection, step watchdog on the framing loops.",
+    "C08": ("exploration", "Payload lengths are enumerated from the run index (0..96, windows around every length whose message crosses a multiple of 1024 bytes and the 2048-character threshold, 3000/4Ki/10K/64Ki; thorough: every length 0..3200, 64Ki, 1Mi) x content {random over all byte values, zeros, 0xFF} x formats (incl. empty and non-ASCII) x receivers {library client with Only on its BLOB connection, the same additionally Also on control, raw peers with policy unset/Never/Also/Only} x direction {download, upload through the client API, raw upload} x payloads installed silently (reset_value) and re-published by a state change or a vector/group re-enable x partial-BLOB faults (BLOB connection reset inside a payload; half an upload left pending, then closed) x read fragmentation {fixed:1024, fixed:1, fixed:7, random, whole, coalesce}; byte/format/size-exact comparison at every enabled receiver, no setBLOBVector at non-enabled ones, follow-up control and BLOB traffic must arrive on every live connection, step watchdog on the framing loops.",
             "Policies are settled before the measured update (INDI enableBLOB race not demanded); uploads longer than the server-side threshold are known finding K03.",
             "deterministic simulation with a payload-length sweep, stream fragmentation and partial-transfer faults; byte-exact oracle and liveness watchdogs"),
     "C14": ("exploration", "Seeded search over handler configurations attached through the real @on decorator (0-2 Write and Change handlers per element, plain or coroutine, vetoing or not, shared between two elements; 0-2 Read handlers, plain or coroutine) on text, number and switch (AnyOfMany, OneOfMany) elements, with one vector possibly disabled, x operation sequences (client writes of one or two elements over the simulated wire, set_value(), direct assignment, changing and unchanged values, attribute reads and getProperties); a global trace of handler entries (with the element value at entry) and router publications is checked per operation: Write handlers exactly once with the requested value (none for assignments), plain ones before the value changes and coroutine ones after publication, veto => nothing changed/published/no Change, otherwise exactly one update carrying the value iff the vector is enabled, Change exactly once with (old, new) iff changed and after publication, plain Read handlers before the value is returned or published.",
@@ -43,13 +43,13 @@ CHECKS = {
     "C15": ("exploration", "Seeded search over streams of 1..40 def/set/del/ping/getProperties messages over 2 devices x 3 properties x 3 elements (redefinition with the same or another kind, partial updates, kind mismatches, unknown targets, empty and absent BLOB payloads, nameless delProperty) in random foreign spellings, delivered by a stub server over the fragmented simulated network to the real two-connection client (variant: setBLOBVector on the BLOB connection) or in-process to a SnoopingClient; after every applied message the client's public view is compared with an independent reference interpreter; at the end the client must have applied exactly what was sent, its receive tasks must be alive and a sentinel definition must be reflected. Awkward streams (wrong declared BLOB size, bad base64) are judged for survival only.",
             "The stub server never duplicates traffic on both connections; empty text == absent text == empty BLOB.",
             "deterministic simulation of a foreign server with per-message refinement check against a reference client model"),
-    "C16": ("exploration", "Streams as in C15 with callback operations at quiescence between deliveries: onevent with every combination of device/vector/element filter (absent, matching, non-matching) and event type, plain / coroutine / raising callbacks, rmonevent by uuid and by criteria. Each callback's log must equal (as a multiset, ignoring permitted None->None heads) the events an independent reference interpreter derives for the messages applied while it was registered; plain callbacks must never be invoked after removal; per element object and per vector object the value/state events must form an unbroken chain starting at None and ending at the current value; a raising callback must not stop the client.",
+    "C16": ("exploration", "Streams as in C15 with callback operations at quiescence between deliveries: onevent with every combination of device/vector/element filter (absent, matching, non-matching) and event type, plain / coroutine / raising callbacks (bound methods), rmonevent by uuid, by criteria and by an equal-but-not-identical callback, and pending waitforevent calls sitting among the callbacks. Each callback's log must equal (as a multiset, ignoring permitted None->None heads) the events an independent reference interpreter derives for the messages applied while it was registered; plain callbacks must never be invoked after removal; per element object and per vector object the value/state events must form an unbroken chain starting at None and ending at the current value; a raising callback must not stop the client.",
             "A redefinition starts new chains; for coroutine callbacks invoked means dispatched; equal-byte BLOB replacements are not judged.",
             "deterministic simulation with callback registration/removal interleaved with deliveries; reference-derived expected events"),
     "C17": ("exploration", "On the virtual clock, 1-3 concurrent waits (condition {expect, initial, check} x event kind {value, state} x timeout {none, 0.5..4 s} x polling {off, (delay, interval)} x filters x start instant) face a timeline of matching and non-matching updates on a 0.25 s grid from 0 to 6 s, several possibly in one instant, injected directly or sent by a stub server through the simulated network (several messages in one read), with seeded tie-break of equal-time timers. Closed-form oracle: the wait returns exactly the first matching event (identified by its old/new pair) at its instant if that is before the timeout, otherwise raises at exactly start+timeout, otherwise stays pending; never both; getProperties is sent exactly at start+delay+k*interval before completion, with the waited device/property, and never afterwards; callbacks are back to the base count.",
             "Ties between an event and the timeout instant are excluded by the generator; a poll tick at the completion instant is accepted either way; events at the very instant a wait starts are treated as ambiguous.",
             "deterministic simulation on a virtual clock with a timing grid and closed-form expectations"),
-    "C02": ("exploration", "Seeded search over (message sequence, spelling, receive world, threshold, stream partition), including exhaustive 1-, 2- and 3-cut sweeps of short streams, through the real Buffer and the real server/client/TTY read loops on a simulated network and thread pool; delivered messages compared structurally with what was sent, promptness checked after every piece, step watchdog for termination. Sampling, not proof.",
+    "C02": ("exploration", "Seeded search over (message sequence, spelling, receive world, threshold, stream partition), including exhaustive 1-, 2- and 3-cut sweeps of short streams (1-cut sweeps also through the network worlds) and messages padded to end exactly on a multiple of the transports' read size, through the real Buffer and the real server/client/TTY read loops on a simulated network and thread pool; delivered messages compared structurally with what was sent, promptness checked after every piece, step watchdog for termination. Sampling, not proof.",
             "Trusts the harness message grammar/spelling writer and the structural comparison; kernel TCP segmentation is modelled as arbitrary cuts (a superset).",
             "deterministic simulation (seeded stream-partition schedules on a virtual-time loop, fault-free) with structural reference comparison"),
     "C11": ("exploration", "Seeded search over valid traffic with injected wire faults (junk incl. imitating fragments, truncation at chosen and at every position, eight corruption operators, filler) x receive world x threshold {16,128,2048,None} x partition; oracles: step watchdog (termination), nothing raised, contiguous-substring genuineness of every delivered message, retained length <= threshold after every call, promptness around non-imitating junk, resynchronisation after damage once the threshold is exceeded.",
